@@ -483,7 +483,20 @@ def result_uses(body, call_bb, _depth=0, _local=None):
     if not real:
         return {"dropped" if uses else "unused"}
     for kind, bb, info in real:
-        if kind == "discr" or kind == "switch":
+        if kind == "discr" and body.blocks[bb]["term"].get("desugared") and info["pl"]["l"] == op_place(body.blocks[bb]["term"]["on"])["l"]:
+            # the expansion of an Option / Result combinator applied to the value (desugar.py): classify it as the
+            # combinator it was written as
+            t = body.blocks[bb]["term"]
+            n = t["desugared"]
+            dl = t["desugared_dest"]["l"]
+            if n == "ok" and t.get("desugared_adt", "").endswith("Result"):
+                sub = result_uses(body, call_bb, _depth + 1, dl)
+                out.add("ok()-discarded" if sub <= {"dropped", "unused"} else "ok()-used")
+            elif n in FOLLOW_RESULT:
+                out |= result_uses(body, call_bb, _depth + 1, dl)
+            else:
+                out.add("match")
+        elif kind == "discr" or kind == "switch":
             out.add("match")
         elif kind == "assign":
             st = info
